@@ -81,8 +81,8 @@ type KeyedSP struct {
 	SP       *saml2.SAMLServiceProvider
 	Clk      *SpyClock
 	Cfg      KeyCfg
-	Certs    map[string]*sim.Cert   // encF encS signF signS
-	Spies    map[string]*SpySigner  // encS signS
+	Certs    map[string]*sim.Cert    // encF encS signF signS
+	Spies    map[string]*SpySigner   // encS signS
 	Fields   map[string]*RSAKeyStore // encF signF
 	WantSign string                  // source expected to sign
 	WantEnc  string                  // source expected to decrypt
